@@ -681,6 +681,26 @@ def canonicalise_idioms(tree: ast.AST) -> int:
                 n += 1
                 op = {"intersection": ast.BitAnd(), "union": ast.BitOr(), "difference": ast.Sub()}[node.func.attr]
                 return ast.copy_location(ast.BinOp(left=node.func.value, op=op, right=node.args[0]), node)
+            # list(<generator>) / set(<generator>) / dict(<generator of pairs>) -> the comprehension
+            if isinstance(node.func, ast.Name) and node.func.id in ("list", "set", "dict") and len(node.args) == 1 and not node.keywords and isinstance(node.args[0], ast.GeneratorExp):
+                g_ = node.args[0]
+                if node.func.id == "list":
+                    n += 1
+                    return ast.copy_location(ast.ListComp(elt=g_.elt, generators=g_.generators), node)
+                if node.func.id == "set":
+                    n += 1
+                    return ast.copy_location(ast.SetComp(elt=g_.elt, generators=g_.generators), node)
+                if isinstance(g_.elt, ast.Tuple) and len(g_.elt.elts) == 2 and not any(isinstance(x, ast.Starred) for x in g_.elt.elts):
+                    n += 1
+                    return ast.copy_location(ast.DictComp(key=g_.elt.elts[0], value=g_.elt.elts[1], generators=g_.generators), node)
+            # super(Class, self) -> super();  type(self) -> self.__class__
+            if isinstance(node.func, ast.Name) and node.func.id == "super" and len(node.args) == 2 and isinstance(node.args[1], ast.Name) and node.args[1].id == "self" and not node.keywords:
+                n += 1
+                node.args = []
+                return node
+            if isinstance(node.func, ast.Name) and node.func.id == "type" and len(node.args) == 1 and isinstance(node.args[0], ast.Name) and node.args[0].id == "self" and not node.keywords:
+                n += 1
+                return ast.copy_location(ast.Attribute(value=node.args[0], attr="__class__", ctx=ast.Load()), node)
             # dict() / list() / tuple() -> {} / [] / ()
             if isinstance(node.func, ast.Name) and node.func.id in ("dict", "list", "tuple") and not node.args and not node.keywords:
                 n += 1
@@ -767,9 +787,82 @@ def canonicalise_idioms(tree: ast.AST) -> int:
                 out.append(st)
             return out
 
+        depth = 0
+
+        def visit_FunctionDef(self, node):  # noqa: N802
+            self.depth += 1
+            try:
+                return self.generic_visit(node)
+            finally:
+                self.depth -= 1
+
+        visit_AsyncFunctionDef = visit_FunctionDef
+
+        def visit_While(self, node):  # noqa: N802
+            nonlocal n
+            if isinstance(node.test, ast.Constant) and not isinstance(node.test.value, bool) and node.test.value:
+                node.test = ast.copy_location(ast.Constant(value=True), node.test)  # while 1:
+                n += 1
+            return self.generic_visit(node)
+
+        def _in_function(self, stmts):
+            """Statement idioms that only make sense for the locals of a function (not class / module level)."""
+            nonlocal n
+            out = []
+            for st in stmts:
+                # x: T = v -> x = v
+                if isinstance(st, ast.AnnAssign) and st.value is not None and isinstance(st.target, (ast.Name, ast.Attribute)):
+                    st = ast.copy_location(ast.Assign(targets=[st.target], value=st.value), st)
+                    n += 1
+                # a, b = x, y -> a = x; b = y  (when no later right-hand side reads an earlier target)
+                if isinstance(st, ast.Assign) and len(st.targets) == 1 and isinstance(st.targets[0], ast.Tuple) and isinstance(st.value, ast.Tuple) and len(st.targets[0].elts) == len(st.value.elts) and not any(isinstance(e, ast.Starred) for e in (*st.targets[0].elts, *st.value.elts)):
+                    tg, vs = st.targets[0].elts, st.value.elts
+                    written = [({x.id for x in ast.walk(t) if isinstance(x, ast.Name) and isinstance(x.ctx, ast.Store)}, ast.unparse(t) if not isinstance(t, ast.Name) else None) for t in tg]
+                    safe = True
+                    for j in range(1, len(vs)):
+                        vtxt = ast.unparse(vs[j])
+                        vnames = {x.id for x in ast.walk(vs[j]) if isinstance(x, ast.Name)}
+                        for i in range(j):
+                            if written[i][0] & vnames or (written[i][1] is not None and written[i][1] in vtxt):
+                                safe = False
+                    if safe and all(isinstance(t, (ast.Name, ast.Attribute, ast.Subscript)) for t in tg):
+                        for t, v in zip(tg, vs):
+                            out.append(ast.copy_location(ast.Assign(targets=[t], value=v), st))
+                        n += 1
+                        continue
+                # if (x := e) and c: -> x = e; if x and c:   (the first operand is always evaluated)
+                if isinstance(st, ast.If) and isinstance(st.test, ast.BoolOp) and isinstance(st.test.values[0], ast.NamedExpr):
+                    w = st.test.values[0]
+                    out.append(ast.copy_location(ast.Assign(targets=[ast.Name(id=w.target.id, ctx=ast.Store())], value=w.value), st))
+                    st.test.values[0] = ast.copy_location(ast.Name(id=w.target.id, ctx=ast.Load()), w)
+                    n += 1
+                # xs += [e] -> xs.append(e)
+                if isinstance(st, ast.AugAssign) and isinstance(st.op, ast.Add) and isinstance(st.value, ast.List) and len(st.value.elts) == 1 and not isinstance(st.value.elts[0], ast.Starred) and isinstance(st.target, (ast.Name, ast.Attribute)):
+                    import copy as _copy
+
+                    recv = _copy.deepcopy(st.target)
+                    recv.ctx = ast.Load()
+                    st = ast.copy_location(ast.Expr(value=ast.Call(func=ast.Attribute(value=recv, attr="append", ctx=ast.Load()), args=[st.value.elts[0]], keywords=[])), st)
+                    n += 1
+                # def f(x): return e  (nested, undecorated) -> f = lambda x: e
+                if isinstance(st, ast.FunctionDef) and not st.decorator_list and not st.args.kwonlyargs:
+                    body_ = [b for b in st.body if not (isinstance(b, ast.Expr) and isinstance(b.value, ast.Constant))]
+                    if len(body_) == 1 and isinstance(body_[0], ast.Return) and body_[0].value is not None:
+                        import copy as _copy
+
+                        a2 = _copy.deepcopy(st.args)
+                        for a_ in [*a2.posonlyargs, *a2.args, *( [a2.vararg] if a2.vararg else []), *([a2.kwarg] if a2.kwarg else [])]:
+                            a_.annotation = None
+                        st = ast.copy_location(ast.Assign(targets=[ast.Name(id=st.name, ctx=ast.Store())], value=ast.Lambda(args=a2, body=body_[0].value)), st)
+                        n += 1
+                out.append(st)
+            return out
+
         def _body(self, stmts):
             nonlocal n
             out = []
+            if self.depth > 0:
+                stmts = self._in_function(stmts)
             stmts = self._loops(stmts)
             for st in stmts:
                 if isinstance(st, ast.If):
